@@ -2,11 +2,14 @@ use crate::Outcome;
 use anyhow::{Result, bail};
 use serde_json::Value;
 
+pub mod ll;
 pub mod wf;
 
 pub fn replay_fn(kind: &str) -> Result<fn(&Value) -> Outcome> {
     Ok(match kind {
         "wf" => wf::replay,
+        "c05" => ll::replay_c05,
+        "c06" => ll::replay_c06,
         _ => bail!("unknown replay kind {kind}"),
     })
 }
